@@ -155,6 +155,10 @@ func (c *config) rewrite(node ast.Node) (ast.Node, error) {
 			// No plenc tag. Either we explicitly exclude it `plenc:"-"`, or we give it a number `plenc:"12"`
 			name := "-"
 			if !c.isExcluded(tags) {
+				if maxPlenc >= maxIndex {
+					recordError(f, fmt.Errorf("no plenc index left: the largest is %d", maxIndex))
+					continue
+				}
 				maxPlenc++
 				name = strconv.Itoa(maxPlenc)
 			}
@@ -276,6 +280,9 @@ func quote(tag string) string {
 	}
 	return "`" + tag + "`"
 }
+
+// maxIndex is the largest index plenc accepts
+const maxIndex = 1<<29 - 1
 
 type rewriteErrors []error
 
